@@ -57,6 +57,10 @@ var Tokens = []TokSpec{
 	{`{v:\w+}`, "v", `\w+`, isWordB},
 	{"{c:even}", "c", "even", nil},
 	{"{p:up}", "p", "up", nil},
+	// regexps with a top-level alternation or an inline flag (alternatives with distinct first bytes: the accepted text stays unique)
+	{"{t:img|video}", "t", "img|video", nil},
+	{"{-t2:a|bc}", "t2", "a|bc", nil},
+	{"{f:(?i)abc}", "f", "(?i)abc", nil},
 }
 
 // Literals is deliberately small and self-overlapping.
@@ -287,6 +291,12 @@ func Value(r *ref.R, t *ref.Tok, nextLit string) string {
 		return ref.Pick(r, []string{"ab", "", "abcd", "77"})
 	case "up":
 		return ref.Pick(r, []string{"Ab", "Q", "Zz9"})
+	case "img|video":
+		return ref.Pick(r, []string{"img", "video", "vid", "imgvideo"})
+	case "a|bc":
+		return ref.Pick(r, []string{"a", "bc", "b", "abc"})
+	case "(?i)abc":
+		return ref.Pick(r, []string{"abc", "ABC", "aBc", "ab"})
 	}
 	return "7"
 }
